@@ -1096,7 +1096,9 @@ def from_json(
                     and isinstance(imag, ak.layout.NumpyArray)
                     and len(imag.shape) == 1
                 ):
-                    return lambda: nplike.asarray(real) + nplike.asarray(imag) * 1j
+                    return lambda: ak.layout.NumpyArray(
+                        nplike.asarray(real) + nplike.asarray(imag) * 1j
+                    )
                 else:
                     raise ValueError(
                         "Complex number fields must be numbers"
